@@ -419,6 +419,8 @@ class PhaseField(_Simu):
             d_np1 = np.max(oldAndNewDamage, 1)
             # keep the irreversible damage as the current (and saved) damage field
             self._Set_solutions(self.ProblemTypes.damage, d_np1)
+            # the damage changed -> the displacement matrices degraded by g(d) are out of date
+            self.__updatedDisplacement = False
 
         else:
             raise Exception("Unknown phase field solver.")
